@@ -22,7 +22,7 @@ import (
 
 func (dec *Decoder) stringToInt64(s string, bitSize int) int64 {
 	i, err := strconv.ParseInt(s, 10, bitSize)
-	if err != nil {
+	if err != nil && dec.Error == nil {
 		dec.Error = err
 	}
 	return i
@@ -30,7 +30,7 @@ func (dec *Decoder) stringToInt64(s string, bitSize int) int64 {
 
 func (dec *Decoder) stringToUint64(s string, bitSize int) uint64 {
 	i, err := strconv.ParseUint(s, 10, bitSize)
-	if err != nil {
+	if err != nil && dec.Error == nil {
 		dec.Error = err
 	}
 	return i
